@@ -100,10 +100,13 @@ def scribble(model, kind, nprng, names, initial, donor=None, factor=1.0):
         elif kind == "donor" and donor is not None:
             new = donor[name] * factor
         elif kind == "noise":
+            # bounded, of physical magnitude: entry-wise noise of at most 15 % of the variable's scale
+            # (un-smooth garbage of 100 %+ makes the fixed-point iteration itself diverge to NaN - an
+            # inadmissible guess, not a property violation)
             s = np.max(np.abs(cur)) if cur.size else 0.0
-            new = cur + factor * s * nprng.uniform(-1.0, 1.0, size=cur.shape)
+            new = cur + 0.05 * min(factor, 3.0) * s * nprng.uniform(-1.0, 1.0, size=cur.shape)
         else:
             new = cur
-        outs.set_var(name, new.reshape(np.shape(outs._abs_get_val(name, flat=False))))
+        prob.set_val(name, new.reshape(np.shape(outs._abs_get_val(name, flat=False))))
         n += 1
     return n
